@@ -108,17 +108,26 @@ def compile_group(ctx, g: Group, extra_defines=(), suffix='', no_loop_contracts=
     if rc != 0:
         raise Undecided('goto-cc failed for %s:\n%s\n%s' % (g.name, out[-3000:], err[-3000:]))
     if g.enforce or g.replace or g.loops:
-        cmd = ['goto-instrument', '--dfcc', g.entry]
-        if g.enforce:
-            cmd += ['--enforce-contract-rec' if g.rec else '--enforce-contract', g.enforce]
-        for r in g.replace:
-            cmd += ['--replace-call-with-contract', r]
-        if g.loops and not no_loop_contracts:
-            cmd += ['--apply-loop-contracts']
-        cmd += [a, b]
-        rc, out, err, _ = run(cmd, 600)
-        g.result['goto_instrument'] = ' '.join(cmd)
-        if rc != 0:
+        replace = list(g.replace)
+        while True:
+            cmd = ['goto-instrument', '--dfcc', g.entry]
+            if g.enforce:
+                cmd += ['--enforce-contract-rec' if g.rec else '--enforce-contract', g.enforce]
+            for r in replace:
+                cmd += ['--replace-call-with-contract', r]
+            if g.loops and not no_loop_contracts:
+                cmd += ['--apply-loop-contracts']
+            cmd += [a, b]
+            rc, out, err, _ = run(cmd, 600)
+            g.result['goto_instrument'] = ' '.join(cmd)
+            if rc == 0:
+                break
+            # goto-instrument aborts when a callee named for replacement is never called in this version of the code
+            # (e.g. a library call that a source edit removed): drop it and retry -- nothing is replaced that is not there
+            mo = re.search(r"Function to replace '([^']+)' not found", out + err)
+            if mo and mo.group(1) in replace:
+                replace.remove(mo.group(1))
+                continue
             raise Undecided('goto-instrument failed for %s:\n%s\n%s' % (g.name, out[-3000:], err[-3000:]))
     else:
         b = a
